@@ -32,14 +32,25 @@ def apply(repo_root, file, old, new, count=1):
     return src.replace(old, new, count)
 
 
+_BASE = None
+LAST = {}
+
+
+def _base():
+    global _BASE
+    if _BASE is None:
+        _BASE = Repo()
+    return _BASE
+
+
 def run_variant(prop, file, old, new):
     from .cli import run_property
-    base = Repo()
+    base = _base()
     src = apply(base.root, file, old, new)
     if src is None:
         return None
     try:
-        repo = Repo(overlay={file: src})
+        repo = Repo(overlay={file: src}, base=base)
     except AnalysisError:
         return "parse-error"
     try:
@@ -49,6 +60,28 @@ def run_variant(prop, file, old, new):
     return new_f
 
 
+def _work(job):
+    prop, file, old, new = job
+    r = run_variant(prop, file, old, new)
+    if isinstance(r, list):   # findings are not picklable with their AST-free payload? keep only what the report needs
+        return [_F(f.rule, f.construct) for f in r]
+    return r
+
+
+class _F:
+    def __init__(self, rule, construct):
+        self.rule, self.construct = rule, construct
+
+
+def _parallel(prop, jobs):
+    import multiprocessing as mp
+    if len(jobs) < 4:
+        return [_work((prop,) + j) for j in jobs]
+    n = min(int(os.environ.get("MSA_JOBS", "12")), len(jobs))
+    with mp.Pool(n) as pool:
+        return pool.map(_work, [(prop,) + j for j in jobs], chunksize=2)
+
+
 def run(prop, verbose=True):
     breaking, benign = variants_for(prop)
     if not breaking and not benign:
@@ -56,9 +89,11 @@ def run(prop, verbose=True):
         return 0
     bad = 0
     n_b = n_s = n_ok = 0
+    results = _parallel(prop, [(v[1], v[2], v[3]) for v in breaking] + [(v[0], v[1], v[2]) for v in benign])
+    res_iter = iter(results)
     for v in breaking:
         rule, file, old, new = v[:4]
-        res = run_variant(prop, file, old, new)
+        res = next(res_iter)
         label = v[4] if len(v) > 4 else old.strip().splitlines()[0][:60]
         if res is None:
             n_s += 1
@@ -81,7 +116,7 @@ def run(prop, verbose=True):
     for v in benign:
         file, old, new = v[:3]
         label = v[3] if len(v) > 3 else old.strip().splitlines()[0][:60]
-        res = run_variant(prop, file, old, new)
+        res = next(res_iter)
         if res is None:
             n_s += 1
             if verbose:
@@ -96,7 +131,34 @@ def run(prop, verbose=True):
             n_ok += 1
             if verbose:
                 print(f"  self-test ok    silent on benign: {label}")
+    # whole-package benign variant: every module re-emitted by ast.unparse (layout, comments, quotes, line numbers change)
+    import ast, warnings
+    from .cli import run_property
+    base = Repo()
+    overlay = {}
+    with warnings.catch_warnings():
+        warnings.simplefilter("ignore")
+        for m in base.modules.values():
+            overlay[m.relpath] = ast.unparse(ast.parse(m.source)) + "\n"
+    try:
+        rc0, c0, new0, old0 = run_property(prop, "quick", repo=base, quiet=True, write=False)
+        rc1, c1, new1, old1 = run_property(prop, "quick", repo=Repo(overlay=overlay), quiet=True, write=False)
+        same = sorted(f.key() for f in new0 + old0) == sorted(f.key() for f in new1 + old1) and c0.obligations == c1.obligations
+    except Exception as e:  # noqa
+        same = False
+        print(f"  self-test FAIL  analyser raised on the re-formatted package: {type(e).__name__}: {e}")
+    n_b += 1
+    if same:
+        n_ok += 1
+        if verbose:
+            print(f"  self-test ok    re-formatted package: same {c1.obligations} obligations, same findings")
+    else:
+        bad += 1
+        print("  self-test FAIL  verdict depends on source layout (re-formatted package gives other obligations / findings)")
     print(f"  self-test {prop}: {n_ok}/{n_b} variants behaved as required, {n_s} skipped")
+    global LAST
+    LAST = {"variants_run": n_b, "variants_as_required": n_ok, "variants_skipped": n_s,
+            "breaking_variants": len(breaking), "benign_variants": len(benign) + 1}
     return 1 if bad else 0
 
 
